@@ -211,7 +211,7 @@ def run_group(g, workdir):
     os.makedirs(workdir, exist_ok=True)
     try:
         meta = lower_unit(g.unit) if g.unit else None
-    except LoweringError as e:
+    except Exception as e:
         r.status = 'error'
         r.detail = f'lowering failed: {e}'
         return r
